@@ -789,7 +789,7 @@ def _fresh_producers(prog, ds):
     return out
 
 
-def check_no_inplace_on_shared_arrays(prog, ctx, ds):
+def check_no_inplace_on_shared_arrays(prog, ctx, ds, rule="C18.D7"):
     fresh = _fresh_producers(prog, ds)
     n_sites = 0
     n_methods = 0
@@ -812,7 +812,43 @@ def check_no_inplace_on_shared_arrays(prog, ctx, ds):
                 owners = [owner_of(b.value, depth + 1) for b in bs if b.kind == "assign" and b.value is not None]
                 owners = [o for o in owners if o is not None]
                 return owners[0] if owners else None
+            if isinstance(e, ast.Attribute) and e.attr == "T":
+                return owner_of(e.value, depth + 1)
+            if isinstance(e, ast.Call):                       # numpy views: no copy when the argument already is an array of that type
+                fn = e.func.attr if isinstance(e.func, ast.Attribute) else (e.func.id if isinstance(e.func, ast.Name) else None)
+                if fn in R.VIEW_CALLS:
+                    if isinstance(e.func, ast.Attribute) and not (isinstance(e.func.value, ast.Name) and e.func.value.id in ("np", "numpy")):
+                        return owner_of(e.func.value, depth + 1)
+                    return owner_of(e.args[0], depth + 1) if e.args else None
             return None
+
+        def is_element_array(e, depth=0):
+            """e denotes one of the arrays inside X._data (X._data[k] or a view of it), not the tuple X._data itself"""
+            if depth > 4:
+                return False
+            if isinstance(e, ast.Subscript):
+                return owner_of(e.value) is not None
+            if isinstance(e, ast.Name):
+                return any(is_element_array(b.value, depth + 1) for b in tm.env.bindings.get(e.id, []) if b.kind == "assign" and b.value is not None)
+            if isinstance(e, ast.Attribute) and e.attr == "T":
+                return is_element_array(e.value, depth + 1)
+            if isinstance(e, ast.Call):
+                fn = e.func.attr if isinstance(e.func, ast.Attribute) else (e.func.id if isinstance(e.func, ast.Name) else None)
+                if fn in R.VIEW_CALLS:
+                    if isinstance(e.func, ast.Attribute) and not (isinstance(e.func.value, ast.Name) and e.func.value.id in ("np", "numpy")):
+                        return is_element_array(e.func.value, depth + 1)
+                    return bool(e.args) and is_element_array(e.args[0], depth + 1)
+            return False
+        # whole-array updates through a local: `samples = np.asarray(self._data[0]); samples += shift` writes into the DataSet's (and, for
+        # a set built from the user's array, the user's) array
+        for st in walk_local(fi.node):
+            if isinstance(st, ast.AugAssign) and isinstance(st.target, ast.Name) and is_element_array(st.target):
+                own = owner_of(st.target)
+                n_sites += 1
+                ctx.violation(rule, R.key_of(fi, "inplace-update:%s" % st.target.id), fi.loc(st),
+                              "`%s` updates, in place, an array of `%s._data` (the local `%s` is that array or a numpy view of it, not a copy): the set "
+                              "this one was derived from, its pieces and the caller who handed the array in all see the change"
+                              % (src(st)[:70], src(own) if own is not None else "?", st.target.id))
         for st in walk_local(fi.node):
             targets = []
             if isinstance(st, ast.Assign):
@@ -844,7 +880,7 @@ def check_no_inplace_on_shared_arrays(prog, ctx, ds):
                     else:
                         why += "; the arrays of self may be shared with the DataSet it was derived from (split_pieces views, copy(), shift_value / " \
                                "scale_factor keep the label array)"
-                    ctx.check(ok, "C18.D7", R.key_of(fi, "inplace-store:%s" % src(el.value)[:40]), fi.loc(st),
+                    ctx.check(ok, rule, R.key_of(fi, "inplace-store:%s" % src(el.value)[:40]), fi.loc(st),
                               "the only in-place element stores into data arrays act on DataSets freshly built in the same function",
                               why)
     # attributes handed over by reference (to_update.A = self.A in _update_internal; copy() shares the whole __dict__) are never modified
@@ -871,12 +907,12 @@ def check_no_inplace_on_shared_arrays(prog, ctx, ds):
         for s_ in R.self_stores(fi):
             if s_.attr in maybe_array and s_.kind in ("aug", "elem", "elem_aug"):
                 n_aug += 1
-                ctx.violation("C18.D7", R.key_of(fi, "inplace-on-shared-attribute:%s" % s_.attr), fi.loc(s_.stmt),
+                ctx.violation(rule, R.key_of(fi, "inplace-on-shared-attribute:%s" % s_.attr), fi.loc(s_.stmt),
                               "`%s` modifies self.%s in place; _update_internal / copy() hand this attribute to derived sets by reference, so "
                               "the set this one was derived from (or its pieces) see the change" % (src(s_.stmt)[:80], s_.attr))
-    ctx.check(bool(maybe_array), "C18.D7", "%s::shared-attributes-not-modified-in-place" % DS, upd.loc(),
+    ctx.check(bool(maybe_array), rule, "%s::shared-attributes-not-modified-in-place" % DS, upd.loc(),
               "attributes handed over by reference that may hold arrays (%s) are only ever re-bound (%d in-place modifications)" % (sorted(maybe_array), n_aug),
               "_update_internal no longer hands any array-valued attribute over by reference (by reference: %s)" % sorted(by_ref))
-    ctx.note("C18.D7", "%s::array-ownership" % DS, "sparseSpACE/DEMachineLearning.py",
+    ctx.note(rule, "%s::array-ownership" % DS, "sparseSpACE/DEMachineLearning.py",
              "%d in-place element store(s) into DataSet arrays analysed in %d functions; fresh-array producers: %s" % (n_sites, n_methods, sorted(fresh)))
-    ctx.floor("C18.D7", len(fresh), 1, "DataSet methods that build their results from fresh arrays")
+    ctx.floor(rule, len(fresh), 1, "DataSet methods that build their results from fresh arrays")
